@@ -45,7 +45,7 @@ ASSUMPTIONS = [
     'automatic windows, weakest reading: per-side distance factor*gap from each neighbouring estimate, demanded of non-empty windows only',
     'data carry variances (Poisson-like), coordinates are sorted points; inverted explicit windows and unsorted estimates are not admissible and not tried',
     'scipy.optimize.curve_fit is trusted as the optimiser; nothing is demanded of where it converges',
-    'points exactly on a window bound are dont-care for removal',
+    'window membership for removal is the half-open label slice [lo, hi) of the sorted coordinate that fit_peaks itself uses; the reference mask is cross-checked against plain scipp slicing in every case',
 ]
 BOUND = {
     'quick': '2 grids (101 uniform, 200 mildly non-uniform); 1..3 peaks {gaussian, lorentzian} x width {0.5, 2, 6 steps} x {linear, quadratic}; '
@@ -57,7 +57,8 @@ REQUIRED_CLASSES = [
     'assessment_peak_near_edge', 'assessment_peak_too_wide', 'assessment_peak_too_narrow',
     'stats_recomputed', 'requirements_checked', 'auto_windows_ok', 'auto_window_clipped', 'auto_window_separated',
     'independent_of_other_peaks', 'list_first_success', 'list_none_successful', 'spec_instance', 'spec_list',
-    'removal_checked', 'removal_with_overlap', 'removal_variances_refused', 'removal_ignores_failures',
+    'removal_checked', 'removal_with_overlap', 'removal_upper_bound_on_point', 'removal_lower_bound_on_point', 'removal_window_ends_at_last_point',
+    'removal_adjacent_windows_share_point', 'removal_variances_refused', 'removal_ignores_failures',
     'estimate_outside_data', 'window_with_fewer_points_than_parameters', 'input_window_empty', 'input_window_too_few_points',
     'input_window_enough_points',
 ]
@@ -233,8 +234,8 @@ def cases(tier):
                 out.append({'kind': 'remove_fitted', 'spectrum': spec, 'width': w, 'background': 'linear', 'peak': ['gaussian', 'lorentzian']})
     assessments = [a.name for a in FitAssessment]
     for shape in ('gaussian', 'lorentzian', 'pseudo_voigt'):
-        for layout in ('disjoint', 'overlap', 'nested', 'empty', 'outside', 'on_points'):
-            out.append({'kind': 'remove_synthetic', 'shape': shape, 'layout': layout, 'assessments': assessments})
+        for layout, g in itertools.product(('disjoint', 'overlap', 'nested', 'empty', 'outside', 'on_points', 'upper_on_point', 'lower_on_point', 'to_data_ends', 'whole_range'), ('u101', 'n200')):
+            out.append({'kind': 'remove_synthetic', 'shape': shape, 'layout': layout, 'grid': g, 'assessments': assessments})
     return out
 
 
@@ -651,6 +652,20 @@ def judge_removal(rec, x, y, results, sub, as_iterator=False):
     masks = [pf.in_window(x, lo, hi) for _, _, lo, hi in succ]
     if any(np.any(a & b) for a, b in itertools.combinations(masks, 2)):
         rec.cls('removal_with_overlap')
+    # the reference's membership rule [lo, hi) is the one the fit used: scipp's own label-based slice of the
+    # sorted coordinate (plain scipp, independent of remove_peaks) must select the same points
+    for (_, _, lo, hi), m in zip(succ, masks, strict=True):
+        sl = plain['d', sc.scalar(lo, unit=XUNIT) : sc.scalar(hi, unit=XUNIT)]
+        if not np.array_equal(sl.coords['d'].values, x[m]):
+            raise RuntimeError(f'broken harness: reference window [{lo!r}, {hi!r}) holds {x[m].tolist()}, the label slice holds {sl.coords["d"].values.tolist()}')
+        if np.any(x == hi):
+            rec.cls('removal_upper_bound_on_point')
+            if x[-1] == hi:
+                rec.cls('removal_window_ends_at_last_point')
+        if np.any(x == lo):
+            rec.cls('removal_lower_bound_on_point')
+    if any(a[3] == b[2] and np.any(x == a[3]) for a, b in itertools.permutations(succ, 2)):
+        rec.cls('removal_adjacent_windows_share_point')
     rec.observe(out.values.tobytes())
     rec.validated += 1
     rec.cls('removal_checked')
@@ -704,25 +719,39 @@ def _synthetic_result(shape, assessment, loc, scale, lo, hi):
 
 
 def run_remove_synthetic(case, rec):
-    x = grid('u101')
+    x = grid(case.get('grid', 'u101'))
     y = 100.0 - 2.0 * x + 3.0 * pf.noise(len(x), 11)
     layout = case['layout']
+    n = len(x)
+
+    def at(frac):
+        return float(x[int(round(frac * (n - 1)))])
+
+    def mid(f0, f1):
+        return 0.5 * (at(f0) + at(f1))
+
+    span = float(x[-1] - x[0])
     wins = {
-        'disjoint': [(1.0, 3.0, 2.0), (6.05, 8.05, 7.0)],
-        'overlap': [(2.0, 5.5, 4.0), (4.5, 8.0, 6.0)],
-        'nested': [(1.0, 9.0, 5.0), (4.0, 6.0, 5.2)],
-        'empty': [(5.0, 5.0, 5.0), (7.01, 7.02, 7.0)],
-        'outside': [(-5.0, -1.0, -3.0), (11.0, 12.0, 11.5)],
-        'on_points': [(float(x[20]), float(x[40]), 3.0), (float(x[40]), float(x[60]), 5.0)],
+        'disjoint': [(at(0.1) + 0.001, at(0.3) + 0.001, mid(0.1, 0.3)), (at(0.6) + 0.003, at(0.8) + 0.003, mid(0.6, 0.8))],
+        'overlap': [(at(0.2) - 0.001, at(0.55) + 0.001, mid(0.2, 0.55)), (at(0.45) - 0.001, at(0.8) + 0.001, mid(0.45, 0.8))],
+        'nested': [(at(0.1) - 0.001, at(0.9) + 0.001, at(0.5)), (at(0.4) - 0.001, at(0.6) + 0.001, at(0.52))],
+        'empty': [(at(0.5), at(0.5), at(0.5)), (at(0.7) + 0.001, at(0.7) + 0.002, at(0.7))],
+        'outside': [(float(x[0]) - 0.5 * span, float(x[0]) - 0.1 * span, float(x[0]) - 0.3 * span), (float(x[-1]) + 0.1 * span, float(x[-1]) + 0.2 * span, float(x[-1]) + 0.15 * span)],
+        # bounds that are coordinate values bit for bit
+        'on_points': [(at(0.2), at(0.4), mid(0.2, 0.4)), (at(0.4), at(0.6), mid(0.4, 0.6))],  # adjacent, shared edge on a point
+        'upper_on_point': [(at(0.2) - 0.001, at(0.4), mid(0.2, 0.4)), (at(0.6) + 0.001, at(0.8), mid(0.6, 0.8))],
+        'lower_on_point': [(at(0.2), at(0.4) + 0.001, mid(0.2, 0.4)), (at(0.6), at(0.8) - 0.001, mid(0.6, 0.8))],
+        'to_data_ends': [(float(x[0]), at(0.3), at(0.12)), (at(0.7), float(x[-1]), at(0.9))],  # first window starts at the first, second ends at the last point
+        'whole_range': [(float(x[0]), float(x[-1]), at(0.5)), (at(0.5), float(x[-1]), at(0.8))],
     }[layout]
     shape = case['shape']
-    sub = {'layout': layout}
+    sub = {'layout': layout, 'grid': case.get('grid', 'u101')}
     # every pair of assessments on the two windows
     names = case['assessments']
     for a0, a1 in itertools.product(names, repeat=2):
         if a0 != 'success' and a1 != 'success' and (a0, a1) != (names[1], names[2]):
             continue  # one representative without any success
-        res = [_synthetic_result(shape, a, loc, 0.3, lo, hi) for a, (lo, hi, loc) in zip((a0, a1), wins, strict=True)]
+        res = [_synthetic_result(shape, a, loc, 0.03 * span, lo, hi) for a, (lo, hi, loc) in zip((a0, a1), wins, strict=True)]
         judge_removal(rec, x, y, res, {**sub, 'assessments': [a0, a1]})
     judge_removal(rec, x, y, [], {**sub, 'assessments': []})
     rec.nontrivial += 1
